@@ -72,3 +72,16 @@ package system
 //@   props C13
 //@   ensures[swapped] err == nil && ruleMap == r
 //@   modifies ruleMap
+
+// ---- loader entry points as seen by the datasource layer (C18): calls are recorded
+//@ ghost var gSysLoadN Int
+//@ ghost var gSysLoadArg Slice
+//@ ghost var gSysClearN Int
+//@ func ClearRules() err
+//@   assumed
+//@   ensures gSysClearN == old(gSysClearN) + 1
+//@   modifies gSysClearN
+//@ func LoadRules(rules) (changed, err)
+//@   assumed
+//@   ensures gSysLoadN == old(gSysLoadN) + 1 && gSysLoadArg == rules
+//@   modifies heap, gSysLoadN, gSysLoadArg
